@@ -25,9 +25,9 @@ fn ref_parse_timeout(v: &[u8]) -> Option<u128> {
 
 pub fn run(cfg: &RunCfg) -> Ctx {
     let mut all = Ctx::new();
-    all.merge(par_cases(cfg, "encode", cfg.n(60_000, 16 * 600_000), || (), |_, rng, ctx, _| encode_case(rng, ctx)));
-    all.merge(par_cases(cfg, "parse", cfg.n(60_000, 16 * 600_000), || (), |_, rng, ctx, i| parse_case(rng, ctx, i)));
-    all.merge(par_cases(cfg, "enforce", cfg.n(1000, 16 * 600), || (), |_, rng, ctx, _| enforce_case(rng, ctx)));
+    all.merge(par_cases(cfg, "encode", cfg.n(60_000, 16 * 12_000_000), || (), |_, rng, ctx, _| encode_case(rng, ctx)));
+    all.merge(par_cases(cfg, "parse", cfg.n(60_000, 16 * 12_000_000), || (), |_, rng, ctx, i| parse_case(rng, ctx, i)));
+    all.merge(par_cases(cfg, "enforce", cfg.n(1000, 16 * 6000), || (), |_, rng, ctx, _| enforce_case(rng, ctx)));
     for (u, _) in UNITS {
         all.floor(&format!("enc.unit.{}", u), 5);
         all.floor(&format!("parse.unit.{}", u), 48);
